@@ -371,5 +371,7 @@ fn main() {
     let general = Profile::general();
     ck.prop_export("fused", n / 10, || op_case(2, 10), |c| oracle_fused(&general, c), |c| c.export(&general));
     ck.prop_export("fused-elementwise", n / 10, || op_case(2, 8), |c| oracle_fused(&biased, c), |c| c.export(&biased));
+    vc_ops::classes::record_coverage_of(&mut ck, vc_ops::classes::IN_PLACE_CAPABLE, "op:", "in_place_capable_registry_operators_run_in_place");
+    vc_ops::classes::record_coverage_of(&mut ck, vc_ops::classes::IN_PLACE_CAPABLE, "reused:", "in_place_capable_registry_operators_that_reused_the_buffer");
     ck.finish();
 }
